@@ -7,7 +7,7 @@
 #include "gram.h"
 #include "sx.h"
 
-#define O_MAXN 17
+#define O_MAXN 27
 static int seq[O_MAXN]; static int seqn;
 
 /* ---------------- derivability: der[X][i][j]  <=>  X =>* seq[i..j) */
